@@ -1215,6 +1215,69 @@ pub fn run(tier: &str) -> i32 {
     add(&c);
   }
 
+  // ------------------------------------------------------------ files the loader may accept
+  // "every ... size that a loadable ROM file can declare": the file itself is part of the
+  // configuration.  Files shorter than what their header declares are offered to the real
+  // loader; whatever it accepts is swept like any other configuration, with the last ROM bank
+  // selected (a mapping that reaches past the end of the file faults on access).
+  {
+    let cuts: [u64; 9] = [1, 0x0FFF, 0x1000, 0x1001, 0x2000, 0x2FFF, 0x3000, 0x3FFF, 0x4000];
+    let shapes: [(u8, u8); 5] = [(0x00, 0x00), (0x01, 0x01), (0x03, 0x02), (0x11, 0x01), (0x13, 0x52)];
+    let n = (cuts.len() * shapes.len()) as u64;
+    let opts = PoolOpts { chunk: 1, bitmap_bits: 1 << 8, samples_per_child: 1, workers: 4, ..PoolOpts::default() };
+    let r = run_pool(
+      n,
+      &opts,
+      |_| (),
+      |_, case, ctx: &mut Ctx| {
+        let (ty, rc) = shapes[(case as usize) / cuts.len()];
+        let cut = cuts[(case as usize) % cuts.len()];
+        let banks = rom_banks_for_code(rc).unwrap();
+        let declared = banks as u64 * 0x4000;
+        let h = header_bytes(ty, rc, 0x00);
+        let path = write_sparse_rom_file(declared - cut, &[(0x100, &h[0x100..0x150])]);
+        ctx.sample(|| J::obj().set("file", J::s(format!("type {:02X}, ROM code {:02X} ({} bytes declared), file {} bytes shorter", ty, rc, declared, cut))));
+        match load_like_main(&path) {
+          Err(_) => {
+            ctx.count(1, 1); // refused: not a loadable file, outside the statement
+            ctx.class(cut);
+          },
+          Ok(mut core) => {
+            ctx.count(2, 1);
+            ctx.class(0x100 + cut);
+            let m = &mut core.memory as *mut MemoryAreas;
+            if ty != 0 {
+              memory_write_byte(m, 0x2100, (banks - 1) as u8);
+              if banks > 0x20 {
+                memory_write_byte(m, 0x4100, ((banks - 1) >> 5) as u8);
+              }
+            }
+            let mut acc = 0u64;
+            for a in 0..=0xFFFFu32 {
+              acc = acc.wrapping_add(memory_read_byte(m as *const MemoryAreas, a as u16) as u64);
+              acc = acc.wrapping_add(memory_read_word(m, a as u16) as u64);
+              ctx.count(0, 2);
+            }
+            std::hint::black_box(acc);
+          },
+        }
+        let _ = std::fs::remove_file(&path);
+      },
+      |case, how| {
+        let (ty, rc) = shapes[(case as usize) / cuts.len()];
+        let cut = cuts[(case as usize) % cuts.len()];
+        (
+          format!("C11 cfg=file-shorter-than-declared regs=last-bank access=r region=romN kind={}", how),
+          J::obj().set("case", J::obj().set("cart_type", J::s(format!("{:02X}", ty))).set("rom_code", J::s(format!("{:02X}", rc))).set("file_bytes_missing", J::u(cut)).set("what", J::s("file accepted by the loader, last ROM bank selected, every address read (byte and word)"))),
+        )
+      },
+    );
+    let c = rep.add_stage("short-files", "5 (controller, ROM size) shapes x files 1 .. 0x4000 bytes shorter than declared (9 lengths around page and bank boundaries): offered to the real loader; every accepted file swept over all 65536 addresses (byte and word reads) with the last bank selected", r);
+    rep.cov("short_files_refused_by_loader", J::u(c[1]));
+    rep.cov("short_files_accepted_and_swept", J::u(c[2]));
+    totals[C_PERFORMED] += c[0];
+  }
+
   // ------------------------------------------------------------ consistency, evidence
   for f in files.values() {
     let _ = std::fs::remove_file(f);
